@@ -23,7 +23,8 @@ pub static PROP: PropDef = PropDef {
     id: "C17",
     rule: "cases over real Quinn endpoints on UDP loopback (fresh connection per case): (write) 1..6 frames (DATA / HEADERS / GOAWAY / grease WriteBufs, stream-type-prefixed frames) with payloads 0..256 KiB written through h3_quinn::SendStream::{send_data, poll_ready} \
            and raw poll_send, with stream / connection receive windows and send window from tiny to large so that writes are taken in pieces; a second send_data before poll_ready completed must be refused and contribute no byte; a raw Quinn peer reads to the end: \
-           bytes == concatenation of what was handed over, nothing twice, nothing missing, in order. (ids) send_id / recv_id queried in every state {fresh, read pending, data read, FIN seen, reset seen, after stop_sending, write pending, finished}: always the QUIC stream id, never a panic. \
+           bytes == concatenation of what was handed over, nothing twice, nothing missing, in order. (recv) a raw Quinn peer writes 0..6 pieces (0..100 KB) on the nth bidi/uni stream it opened, as client or server, and ends with FIN or RESET(code); the adapter's poll_data, optionally polled once with a no-op waker before every awaited read (a read in flight), must hand out exactly those bytes in order and then the end / StreamTerminated{code}, recv_id = RFC 9000 2.1 id at every step. \
+           (ids) send_id / recv_id queried in every state {fresh, read pending, data read, FIN seen, reset seen, after stop_sending, write pending, finished} on the first or a later stream, client- or server-initiated: always the QUIC stream id (also on the earlier streams and after split), never a panic. \
            (errors) peer close(code) => ApplicationClose{same code}; idle timeout => Timeout; peer reset(code) => StreamTerminated{same code} on read; peer stop(code) => StreamTerminated{same code} on write. \
            non-trivial = a write whose payload exceeds the stream receive window (it cannot have been taken whole), or an id query in a non-fresh state, or an injected error; distinct by case parameters",
     assumptions: &[
@@ -35,7 +36,7 @@ pub static PROP: PropDef = PropDef {
     run_tape,
     exhaustive: Some(exhaustive),
     run_direct: Some(run_direct),
-    min_classes: &[("write_exceeds_window", 50), ("second_send_refused", 50), ("id_state_checked", 50), ("error_table_row", 8), ("poll_send_used", 20)],
+    min_classes: &[("write_exceeds_window", 50), ("second_send_refused", 50), ("id_state_checked", 50), ("error_table_row", 8), ("poll_send_used", 20), ("recv_direction", 50), ("recv_with_read_in_flight", 10), ("id_not_zero", 50)],
     extra: None,
 };
 
@@ -374,14 +375,35 @@ pub enum IdState {
 
 const ID_STATES: [IdState; 8] = [IdState::Fresh, IdState::ReadPending, IdState::DataRead, IdState::FinSeen, IdState::ResetSeen, IdState::AfterStop, IdState::WritePending, IdState::Finished];
 
-async fn id_case(fx: &Fixture, st: IdState, accepted_side: bool) -> Result<Result<(), String>, Failure> {
+/// `nth`: that many earlier bidirectional streams are opened (and kept) by the same initiator first; `flip`: the roles
+/// are swapped, so that the stream under test is server-initiated (id 4*nth + 1) instead of client-initiated (4*nth)
+async fn id_case(fx: &Fixture, st: IdState, accepted_side: bool, nth: u64, flip: bool) -> Result<Result<(), String>, Failure> {
     let w = Windows { stream_rx: 8, conn_rx: 1 << 20, send: 1 << 20 };
     let (cc, sc) = connect(fx, &w, None).await.map_err(hfault)?;
-    // the adapter under test is on the client (opened stream) or on the server (accepted stream)
-    let (adapter_conn, raw_conn) = if accepted_side { (sc.clone(), cc.clone()) } else { (cc.clone(), sc.clone()) };
+    // the adapter under test opens the stream or accepts it; unflipped it is the client when it opens
+    let adapter_is_server = accepted_side ^ flip;
+    let (adapter_conn, raw_conn) = if adapter_is_server { (sc.clone(), cc.clone()) } else { (cc.clone(), sc.clone()) };
+    let initiator_is_server = if accepted_side { !adapter_is_server } else { adapter_is_server };
     let mut conn = h3_quinn::Connection::new(adapter_conn);
     let mut bi: h3_quinn::BidiStream<Bytes>;
     let (mut raw_tx, mut raw_rx);
+    let mut earlier_raw = Vec::new();
+    let mut earlier_adapter = Vec::new();
+    for _ in 0..nth {
+        if accepted_side {
+            let (mut tx, rx) = raw_conn.open_bi().await.map_err(|e| hfault(format!("{e}")))?;
+            tx.write_all(b"e").await.map_err(|e| hfault(format!("{e}")))?;
+            earlier_raw.push((tx, rx));
+            let b: h3_quinn::BidiStream<Bytes> = std::future::poll_fn(|cx| <h3_quinn::Connection as quic::Connection<Bytes>>::poll_accept_bidi(&mut conn, cx)).await.map_err(|e| hfault(format!("accept: {e}")))?;
+            earlier_adapter.push(b);
+        } else {
+            let mut b: h3_quinn::BidiStream<Bytes> = std::future::poll_fn(|cx| <h3_quinn::Connection as OpenStreams<Bytes>>::poll_open_bidi(&mut conn, cx)).await.map_err(|e| hfault(format!("open: {e}")))?;
+            b.send_data(WriteBuf::from(Frame::Data(Bytes::from_static(b"e")))).map_err(|e| hfault(format!("{e}")))?;
+            std::future::poll_fn(|cx| b.poll_ready(cx)).await.map_err(|e| hfault(format!("{e}")))?;
+            earlier_raw.push(raw_conn.accept_bi().await.map_err(|e| hfault(format!("{e}")))?);
+            earlier_adapter.push(b);
+        }
+    }
     if accepted_side {
         let (tx, rx) = raw_conn.open_bi().await.map_err(|e| hfault(format!("{e}")))?;
         raw_tx = tx;
@@ -398,8 +420,16 @@ async fn id_case(fx: &Fixture, st: IdState, accepted_side: bool) -> Result<Resul
         raw_tx = tx;
         raw_rx = rx;
     }
-    // every connection here is fresh: the first client-initiated bidirectional stream has id 0
-    let want: u64 = 0;
+    // every connection here is fresh: the nth bidirectional stream of its initiator (RFC 9000 2.1)
+    let want: u64 = 4 * nth + initiator_is_server as u64;
+    for (k, b) in earlier_adapter.iter().enumerate() {
+        let w = 4 * k as u64 + initiator_is_server as u64;
+        match crate::runner::catch(|| (b.send_id().into_inner(), b.recv_id().into_inner())) {
+            Ok((s, r)) if s == w && r == w => {}
+            Ok((s, r)) => return Ok(Err(format!("earlier stream {k}: send_id {s} recv_id {r}, the QUIC stream id is {w}"))),
+            Err(p) => return Ok(Err(format!("earlier stream {k}: asking for the stream id panicked: {p}"))),
+        }
+    }
     let check = |bi: &h3_quinn::BidiStream<Bytes>, when: &str| -> Result<(), String> {
         let r = crate::runner::catch(|| (bi.send_id().into_inner(), bi.recv_id().into_inner()));
         match r {
@@ -474,22 +504,240 @@ async fn id_case(fx: &Fixture, st: IdState, accepted_side: bool) -> Result<Resul
     });
     let _ = raw_rx.stop(0u32.into());
     cc.close(0u32.into(), b"done");
+    drop((earlier_raw, earlier_adapter));
     Ok(r)
 }
 
-fn run_id(st: IdState, accepted: bool, ctx: &mut Ctx) -> Verdict {
+fn run_id(st: IdState, accepted: bool, nth: u64, flip: bool, ctx: &mut Ctx) -> Verdict {
     ctx.eval();
-    let r = with_fixture(|fx| block(id_case(fx, st, accepted), fx)).map_err(Failure::fault)?;
+    let r = with_fixture(|fx| block(id_case(fx, st, accepted, nth, flip), fx)).map_err(Failure::fault)?;
     match r?? {
         Ok(()) => {
             ctx.class("id_state_checked");
+            if nth > 0 || flip {
+                ctx.class("id_not_zero");
+            }
             if st != IdState::Fresh {
-                ctx.nontrivial(&(format!("{st:?}"), accepted));
+                ctx.nontrivial(&(format!("{st:?}"), accepted, nth, flip));
             }
             Ok(())
         }
-        Err(m) => Err(Failure::direct(m, json!({"kind": "id", "state": format!("{st:?}"), "accepted": accepted}))),
+        Err(m) => Err(Failure::direct(m, json!({"kind": "id", "state": format!("{st:?}"), "accepted": accepted, "nth": nth, "flip": flip}))),
     }
+}
+
+// ------------------------------------------------------------------------------------------------
+// receive direction (and unidirectional identifiers): what a raw Quinn peer writes is what poll_data hands out
+
+#[derive(Debug, Clone)]
+pub struct RecvCase {
+    pub windows: Windows,
+    pub bidi: bool,
+    /// the raw peer is the server (stream ids 4n+1 / 4n+3) instead of the client
+    pub peer_is_server: bool,
+    /// earlier streams of the same kind opened first
+    pub nth: u64,
+    /// sizes of the peer's writes; a pause (yield) follows each
+    pub writes: Vec<usize>,
+    /// before each awaited read: poll once with a no-op waker (leaves a read in flight), ask for the id
+    pub poke: bool,
+    /// how the peer ends: FIN, or RESET(code) after everything was written
+    pub reset: Option<u64>,
+}
+
+async fn recv_case(fx: &Fixture, c: &RecvCase) -> Result<Result<usize, String>, Failure> {
+    let (cc, sc) = connect(fx, &c.windows, None).await.map_err(hfault)?;
+    let (adapter_conn, raw_conn) = if c.peer_is_server { (cc.clone(), sc.clone()) } else { (sc.clone(), cc.clone()) };
+    let mut conn = h3_quinn::Connection::new(adapter_conn);
+    let total: usize = c.writes.iter().sum();
+    let expected = Arc::new(prf_bytes(4242 + total as u64, total));
+    let want_id = 4 * c.nth + c.peer_is_server as u64 + if c.bidi { 0 } else { 2 };
+    let (bidi, nth, writes, reset, exp) = (c.bidi, c.nth, c.writes.clone(), c.reset, expected.clone());
+    let writer = tokio::spawn(async move {
+        let mut keep_bi = Vec::new();
+        let mut keep_uni = Vec::new();
+        for _ in 0..nth {
+            if bidi {
+                let (mut tx, rx) = raw_conn.open_bi().await.map_err(|e| format!("open_bi: {e}"))?;
+                tx.write_all(b"e").await.map_err(|e| format!("{e}"))?;
+                keep_bi.push((tx, rx));
+            } else {
+                let mut tx = raw_conn.open_uni().await.map_err(|e| format!("open_uni: {e}"))?;
+                tx.write_all(b"e").await.map_err(|e| format!("{e}"))?;
+                keep_uni.push(tx);
+            }
+        }
+        let (mut tx, rx) = if bidi {
+            let (tx, rx) = raw_conn.open_bi().await.map_err(|e| format!("open_bi: {e}"))?;
+            (tx, Some(rx))
+        } else {
+            (raw_conn.open_uni().await.map_err(|e| format!("open_uni: {e}"))?, None)
+        };
+        // announce the stream even when nothing else is written
+        tx.write_all(b"!").await.map_err(|e| format!("peer write: {e}"))?;
+        let mut off = 0;
+        for n in writes {
+            tx.write_all(&exp[off..off + n]).await.map_err(|e| format!("peer write: {e}"))?;
+            off += n;
+            tokio::task::yield_now().await;
+        }
+        match reset {
+            None => {
+                tx.finish().map_err(|e| format!("{e}"))?;
+                // wait until the adapter has everything (finish returns at once)
+                let _ = tx.stopped().await;
+            }
+            Some(code) => {
+                // the data must be acknowledged first, or the reset may discard it: wait for the reader's signal instead
+                // (a reset may legally overtake data - the reader accepts any prefix)
+                tx.reset(quinn::VarInt::from_u64(code).unwrap()).map_err(|e| format!("{e}"))?;
+            }
+        }
+        Ok::<_, String>((tx, rx, keep_bi, keep_uni, raw_conn))
+    });
+    enum R {
+        Bi(h3_quinn::BidiStream<Bytes>),
+        Uni(h3_quinn::RecvStream),
+    }
+    let mut earlier = Vec::new();
+    for _ in 0..=c.nth {
+        let r = if c.bidi {
+            R::Bi(std::future::poll_fn(|cx| <h3_quinn::Connection as quic::Connection<Bytes>>::poll_accept_bidi(&mut conn, cx)).await.map_err(|e| hfault(format!("accept_bidi: {e}")))?)
+        } else {
+            R::Uni(std::future::poll_fn(|cx| <h3_quinn::Connection as quic::Connection<Bytes>>::poll_accept_recv(&mut conn, cx)).await.map_err(|e| hfault(format!("accept_recv: {e}")))?)
+        };
+        earlier.push(r);
+    }
+    let mut r = earlier.pop().unwrap();
+    macro_rules! onr {
+        ($x:ident => $e:expr) => {
+            match &mut r {
+                R::Bi($x) => $e,
+                R::Uni($x) => $e,
+            }
+        };
+    }
+    let waker = futures_util::task::noop_waker();
+    let mut got = 0usize;
+    let mut first = true;
+    let mut pokes = 0usize;
+    let verdict: Result<usize, String> = loop {
+        let id = crate::runner::catch(|| onr!(x => x.recv_id().into_inner()));
+        match id {
+            Ok(i) if i == want_id => {}
+            Ok(i) => break Err(format!("recv_id {i} after {got} bytes, the QUIC stream id is {want_id}")),
+            Err(p) => break Err(format!("recv_id panicked after {got} bytes: {p}")),
+        }
+        let mut item = None;
+        if c.poke {
+            let mut cx = std::task::Context::from_waker(&waker);
+            match onr!(x => x.poll_data(&mut cx)) {
+                Poll::Pending => {
+                    pokes += 1;
+                    // a read is in flight (its waker is the no-op one: the next poll must re-register)
+                    match crate::runner::catch(|| onr!(x => x.recv_id().into_inner())) {
+                        Ok(i) if i == want_id => {}
+                        Ok(i) => break Err(format!("recv_id {i} while a read is in flight, the QUIC stream id is {want_id}")),
+                        Err(p) => break Err(format!("recv_id panicked while a read is in flight: {p}")),
+                    }
+                }
+                Poll::Ready(x) => item = Some(x),
+            }
+        }
+        let item = match item {
+            Some(x) => x,
+            None => std::future::poll_fn(|cx| onr!(x => x.poll_data(cx))).await,
+        };
+        match item {
+            Ok(Some(mut b)) => {
+                let mut v = b.copy_to_bytes(b.remaining()).to_vec();
+                if first && !v.is_empty() {
+                    // the announcing byte
+                    if v[0] != b'!' {
+                        break Err(format!("first byte read is {:#x}, the peer wrote 0x21", v[0]));
+                    }
+                    v.remove(0);
+                    first = false;
+                }
+                let want = &expected[got.min(total)..(got + v.len()).min(total)];
+                if want != &v[..] {
+                    let n = got + v.iter().zip(want.iter()).take_while(|(a, b)| a == b).count();
+                    break Err(format!("poll_data handed out {} bytes so far, the peer wrote {total}; first difference at offset {n}", got + v.len()));
+                }
+                got += v.len();
+            }
+            Ok(None) => {
+                break if c.reset.is_some() {
+                    Err(format!("the peer reset the stream, poll_data reported a clean end after {got} bytes"))
+                } else if got != total || first {
+                    Err(format!("poll_data reported the end after {got} bytes, the peer wrote {total} and finished"))
+                } else {
+                    Ok(pokes)
+                };
+            }
+            Err(StreamErrorIncoming::StreamTerminated { error_code }) => {
+                break match c.reset {
+                    Some(code) if code == error_code => Ok(pokes),
+                    Some(code) => Err(format!("the peer reset with {code:#x}, poll_data reported StreamTerminated {{ {error_code:#x} }}")),
+                    None => Err(format!("the peer finished the stream, poll_data reported StreamTerminated {{ {error_code:#x} }} after {got} bytes")),
+                };
+            }
+            Err(e) => break Err(format!("poll_data failed after {got} bytes: {e:?}")),
+        }
+    };
+    drop(r);
+    drop(earlier);
+    let w = writer.await;
+    cc.close(0u32.into(), b"done");
+    match (verdict, w) {
+        (Err(m), _) => Ok(Err(m)),
+        (Ok(_), Ok(Err(e))) => Err(hfault(format!("raw peer: {e}"))),
+        (Ok(_), Err(e)) => Err(hfault(format!("raw peer task: {e}"))),
+        (Ok(p), Ok(Ok(_))) => Ok(Ok(p)),
+    }
+}
+
+fn case_json_recv(c: &RecvCase) -> Value {
+    json!({"kind": "recv", "windows": [c.windows.stream_rx, c.windows.conn_rx, c.windows.send], "bidi": c.bidi, "peer_is_server": c.peer_is_server, "nth": c.nth, "writes": c.writes, "poke": c.poke, "reset": c.reset.map(|x| x.to_string())})
+}
+
+fn run_recv(c: &RecvCase, ctx: &mut Ctx) -> Verdict {
+    ctx.eval();
+    let r = with_fixture(|fx| block(recv_case(fx, c), fx)).map_err(Failure::fault)?;
+    match r?? {
+        Ok(pokes) => {
+            ctx.class("recv_direction");
+            if pokes > 0 {
+                ctx.class("recv_with_read_in_flight");
+            }
+            if c.nth > 0 || c.peer_is_server || !c.bidi {
+                ctx.class("id_not_zero");
+            }
+            if c.writes.len() >= 2 {
+                ctx.nontrivial(&format!("{:?}", case_json_recv(c)));
+            }
+            ctx.sample(|| case_json_recv(c));
+            Ok(())
+        }
+        Err(m) => Err(Failure::direct(m, case_json_recv(c))),
+    }
+}
+
+fn gen_recv(t: &mut Tape) -> RecvCase {
+    let stream_rx = *t.choose(&[1u64, 2, 17, 500, 4096, 65536, 1 << 20]);
+    let conn_rx = *t.choose(&[1200u64, 65536, 1 << 20]).max(&stream_rx);
+    let minw = stream_rx.min(conn_rx) as usize;
+    let n = t.int(0, 6) as usize;
+    let writes = (0..n)
+        .map(|_| match t.pick(4) {
+            0 => t.int(0, 3) as usize,
+            1 => t.int(1, 200) as usize,
+            2 => t.int(200, 5000) as usize,
+            _ => t.int(5000, 100_000) as usize,
+        }
+        .min(minw.saturating_mul(8)))
+        .collect();
+    RecvCase { windows: Windows { stream_rx, conn_rx, send: 1 << 20 }, bidi: t.bool(), peer_is_server: t.bool(), nth: t.pick(3) as u64, writes, poke: t.bool(), reset: if t.chance(1, 4) { Some(t.u64() >> 2 >> t.pick(62)) } else { None } }
 }
 
 // ------------------------------------------------------------------------------------------------
@@ -623,9 +871,23 @@ fn exhaustive(ctx: &mut Ctx, shard: usize, nshards: usize) -> Verdict {
     let mut idx = 0usize;
     for st in ID_STATES {
         for accepted in [false, true] {
-            idx += 1;
-            if idx % nshards == shard {
-                run_id(st, accepted, ctx)?;
+            for (nth, flip) in [(0u64, false), (1, false), (0, true), (2, true)] {
+                idx += 1;
+                if idx % nshards == shard {
+                    run_id(st, accepted, nth, flip, ctx)?;
+                }
+            }
+        }
+    }
+    for bidi in [true, false] {
+        for peer_is_server in [false, true] {
+            for nth in [0u64, 2] {
+                for (poke, reset) in [(false, None), (true, None), (true, Some(0x10cu64))] {
+                    idx += 1;
+                    if idx % nshards == shard {
+                        run_recv(&RecvCase { windows: Windows { stream_rx: if poke { 17 } else { 1 << 20 }, conn_rx: 1 << 20, send: 1 << 20 }, bidi, peer_is_server, nth, writes: vec![1, 0, 100, 40, 3], poke, reset }, ctx)?;
+                    }
+                }
             }
         }
     }
@@ -652,7 +914,7 @@ fn exhaustive(ctx: &mut Ctx, shard: usize, nshards: usize) -> Verdict {
         }
     }
     if shard == 0 {
-        ctx.subspace("id queries in 8 states x opened/accepted side; 6 error rows x 4 codes; 7 frame kinds x 4 window classes x bidi/uni", idx as u64);
+        ctx.subspace("id queries in 8 states x opened/accepted side x {first, later} stream x {client, server}-initiated; receive direction: bidi/uni x peer role x nth x read-in-flight/reset; 6 error rows x 4 codes; 7 frame kinds x 4 window classes x bidi/uni", idx as u64);
     }
     Ok(())
 }
@@ -698,7 +960,8 @@ fn gen_write(t: &mut Tape) -> WriteCase {
 fn run_tape(tape: &[u16], ctx: &mut Ctx) -> Verdict {
     let mut t = Tape::new(tape);
     match t.pick(10) {
-        0 => run_id(ID_STATES[t.pick(8)], t.bool(), ctx),
+        0 => run_id(ID_STATES[t.pick(8)], t.bool(), t.pick(3) as u64, t.bool(), ctx),
+        2 | 3 => run_recv(&gen_recv(&mut t), ctx),
         1 => {
             let row = ROWS[t.pick(6)];
             let code = if row == ErrRow::Timeout { 0 } else { t.u64() >> 2 >> t.pick(62) };
@@ -712,7 +975,22 @@ fn run_direct(d: &Value, ctx: &mut Ctx) -> Verdict {
     match d["kind"].as_str() {
         Some("id") => {
             let st = ID_STATES.iter().copied().find(|s| Some(format!("{s:?}").as_str()) == d["state"].as_str()).unwrap_or(IdState::Fresh);
-            run_id(st, d["accepted"].as_bool().unwrap_or(false), ctx)
+            run_id(st, d["accepted"].as_bool().unwrap_or(false), d["nth"].as_u64().unwrap_or(0), d["flip"].as_bool().unwrap_or(false), ctx)
+        }
+        Some("recv") => {
+            let w = &d["windows"];
+            run_recv(
+                &RecvCase {
+                    windows: Windows { stream_rx: w[0].as_u64().unwrap_or(1 << 20), conn_rx: w[1].as_u64().unwrap_or(1 << 20), send: w[2].as_u64().unwrap_or(1 << 20) },
+                    bidi: d["bidi"].as_bool().unwrap_or(true),
+                    peer_is_server: d["peer_is_server"].as_bool().unwrap_or(false),
+                    nth: d["nth"].as_u64().unwrap_or(0),
+                    writes: d["writes"].as_array().map(|a| a.iter().map(|x| x.as_u64().unwrap_or(0) as usize).collect()).unwrap_or_default(),
+                    poke: d["poke"].as_bool().unwrap_or(false),
+                    reset: d["reset"].as_str().and_then(|s| s.parse().ok()),
+                },
+                ctx,
+            )
         }
         Some("err") => {
             let row = ROWS.iter().copied().find(|s| Some(format!("{s:?}").as_str()) == d["row"].as_str()).unwrap_or(ErrRow::CloseOnRead);
